@@ -333,6 +333,8 @@ func WorkerMain() {
 func Quiet() {
 	logrus.SetOutput(io.Discard)
 	logrus.SetLevel(logrus.PanicLevel)
+	// logrus.Fatal = the process under test would exit here: a panic of the calling thread (recorded as a violation)
+	logrus.StandardLogger().ExitFunc = func(int) { panic("logrus.Fatal: the process would exit here") }
 }
 
 func sortedKeys(m map[string]int64) []string {
